@@ -21,6 +21,8 @@ RULE = ("geometry: sizes^3 x resolutions^3 x target chunk sizes x max_scales "
         "(quick: 5 sizes, 7 resolutions, targets {2,64}; thorough: 7 sizes, "
         "11 resolutions, 6 targets, max_scales {None,3}; a fixed 1/50 slice "
         "additionally goes through generate_scales_info end to end); "
+        "magnitude family: 48 axis lengths 2^k+j (k up to 40, j in {-1,0,1,3,"
+        "100}) and large primes x 4 shapes x 3 resolutions x targets {64,8}; "
         "parameters: type x encoding x data_type x channels through "
         "set_info_params + fill + get_encoder, also for descriptions that "
         "already carry an encoding, a type, a block size or a second scale. Sub-claims: distinct keys; "
@@ -348,6 +350,24 @@ def _lists(tier):
     return SIZES_T, RES_T, TARGETS_T, [None, 3]
 
 
+def magnitude_cases():
+    """sizes just above / below / at powers of two up to 2^40, and prime-ish
+    large sizes, with isotropic and two anisotropic resolutions - where a
+    level count computed in floating point is most likely to be off"""
+    sizes = []
+    for k in (8, 16, 22, 23, 25, 29, 31, 32, 40):
+        for j in (-1, 0, 1, 3, 100):
+            sizes.append((1 << k) + j)
+    sizes += [999983, 10 ** 12 + 39, 3 * (1 << 30) + 1]
+    out = []
+    for a in sizes:
+        for shape in ((a, 64, 64), (70, a, 3), (1, 1, a), (a, a, a)):
+            for res in ((1, 1, 1), (1, 1, 2.5), (3, 1, 1)):
+                for target in (64, 8):
+                    out.append((shape, res, target))
+    return out
+
+
 def units(tier):
     sizes, ress, targets, ms = _lists(tier)
     u = []
@@ -355,6 +375,9 @@ def units(tier):
         for sy in sizes:
             u.append({"kind": "geometry", "sx": sx, "sy": sy, "tier": tier})
     u.append({"kind": "params"})
+    mc = magnitude_cases()
+    for i in range(0, len(mc), 300):
+        u.append({"kind": "magnitude", "lo": i, "hi": i + 300})
     return u
 
 
@@ -369,6 +392,11 @@ def space(tier):
 
 def run_unit(u):
     col = Collector()
+    if u["kind"] == "magnitude":
+        for shape, res, target in magnitude_cases()[u["lo"]:u["hi"]]:
+            _eval_geometry(col, shape, res, target, None)
+        col.sample(_case((4194305, 64, 64), (1, 1, 1), 64, None))
+        return col.result()
     if u["kind"] == "geometry":
         sizes, ress, targets, ms = _lists(u["tier"])
         n = 0
